@@ -731,38 +731,56 @@ Proof.
   destruct (wf_par m HW _ _ _ Hc) as (y & Hy & _ & Hin). rewrite (Hleaf y Hy) in Hin. set_solver.
 Qed.
 
-(* ---- C03 for move_p: for every state, source and destination ---- *)
-Theorem move_op_wf env m s d m' r : WF m → move_op env m s d = Done (m', r) → WF m'.
+(* ---- what a successful move_p does, exactly (C09): the final indexes ARE the target ---- *)
+Theorem move_op_spec env m s d sb sd db dd m' r : WF m → move_validate env m s d = MvGo (sb :: sd) (db :: dd) →
+  move_op env m s d = Done (m', r) →
+  ∃ se op x, m_ents m !! (sb :: sd) = Some se ∧ m_ents m !! sd = Some op ∧ m_ents m !! dd = Some x ∧ real_dir x ∧
+    r = inl tt ∧
+    (∀ k, m_ents m' !! k = Fe m sb db sd dd se op x k) ∧ (∀ k, m_data m' !! k = Fd m sb db sd dd k) ∧
+    m_cwd m' = m_cwd m ∧ m_root m' = m_root m ∧
+    ¬ (sb :: sd) `suffix_of` (db :: dd) ∧ ¬ (db :: dd) `suffix_of` (sb :: sd) ∧
+    (∀ k, (db :: dd) `suffix_of` k → k ≠ db :: dd → m_ents m !! k = None).
 Proof.
-  intros HW. unfold move_op. destruct (move_validate env m s d) as [e| |sp dt0] eqn:Ev;
-    [intros H; by simplify_eq | intros H; by simplify_eq |].
-  destruct (move_go_facts env m s d sp dt0 Ev) as ([se Hse] & Hne & Hu & b & ddir & x & -> & Hx & Hxd & Hxl & Hy).
-  destruct sp as [|sb sd].
-  { exfalso. assert (is_under (b :: ddir) [] = true) as Ht by (apply is_under_spec, suffix_nil). congruence. }
-  assert (Hsr_dt : ¬ (sb :: sd) `suffix_of` (b :: ddir)).
+  intros HW Ev. unfold move_op. rewrite Ev.
+  destruct (move_go_facts env m s d _ _ Ev) as ([se Hse] & Hne & Hu & b & ddir & x & Heq & Hx & Hxd & Hxl & Hy).
+  injection Heq as <- <-.
+  assert (Hsr_dt : ¬ (sb :: sd) `suffix_of` (db :: dd)).
   { intros Hs. apply is_under_spec in Hs. congruence. }
-  assert (Hleaf : ∀ y, m_ents m !! (b :: ddir) = Some y → files_of y = ∅).
+  assert (Hleaf : ∀ y, m_ents m !! (db :: dd) = Some y → files_of y = ∅).
   { intros y Hyy. rewrite Hyy in Hy. unfold files_of. apply Hy. }
-  pose proof (nothing_under m (b :: ddir) HW Hleaf) as Hfree.
-  assert (Hdt_sr : ¬ (b :: ddir) `suffix_of` (sb :: sd)).
+  pose proof (nothing_under m (db :: dd) HW Hleaf) as Hfree.
+  assert (Hdt_sr : ¬ (db :: dd) `suffix_of` (sb :: sd)).
   { intros Hs. rewrite (Hfree _ Hs) in Hse; [done | congruence]. }
   destruct (wf_par m HW _ _ _ Hse) as (op & Hop & _ & _).
   assert (Hxr : real_dir x) by done.
-  (* the loop *)
-  change (match m_ents m !! (b :: ddir) with Some _ => upd_data m (delete (b :: ddir)) | None => m end) with (M0 m b ddir).
+  change (match m_ents m !! (db :: dd) with Some _ => upd_data m (delete (db :: dd)) | None => m end) with (M0 m db dd).
   remember (2 * size (m_ents m) + 2) as fuel eqn:Hf. destruct fuel as [|f]; [lia|].
-  assert (Hfirst : move_loop (S f) (M0 m b ddir) (sb :: sd) (b :: ddir) [sb :: sd] =
-                   move_loop f (M1 m sb b sd ddir se op x) (sb :: sd) (b :: ddir) (map (λ n, n :: sb :: sd) (kids_of se) ++ []))
+  assert (Hfirst : move_loop (S f) (M0 m db dd) (sb :: sd) (db :: dd) [sb :: sd] =
+                   move_loop f (M1 m sb db sd dd se op x) (sb :: sd) (db :: dd) (map (λ n, n :: sb :: sd) (kids_of se) ++ []))
     by (eapply move_loop_first; eauto).
   rewrite Hfirst, app_nil_r. intros Hloop.
-  assert (Hinv : Inv (sb :: sd) (M1 m sb b sd ddir se op x) (map (λ n, n :: sb :: sd) (kids_of se))) by (eapply inv_M1; eauto).
-  assert (Hgone : m_ents (M1 m sb b sd ddir se op x) !! (sb :: sd) = None) by (eapply M1_sr; eauto).
-  destruct (loop_display _ _ Hsr_dt Hdt_sr f _ _ _ _ Hinv Hgone Hloop) as (_ & Hde & Hdd & Hi & Hs2 & _ & Hrt).
-  destruct (disp_final (sb :: sd) (b :: ddir) m' Hi Hs2) as [He2 Hd2].
-  eapply (target_wf m sb b sd ddir se op x); eauto.
+  assert (Hinv : Inv (sb :: sd) (M1 m sb db sd dd se op x) (map (λ n, n :: sb :: sd) (kids_of se))) by (eapply inv_M1; eauto).
+  assert (Hgone : m_ents (M1 m sb db sd dd se op x) !! (sb :: sd) = None) by (eapply M1_sr; eauto).
+  destruct (loop_display _ _ Hsr_dt Hdt_sr f _ _ _ _ Hinv Hgone Hloop) as (Hr & Hde & Hdd & Hi & Hs2 & Hcw & Hrt).
+  destruct (disp_final (sb :: sd) (db :: dd) m' Hi Hs2) as [He2 Hd2].
+  exists se, op, x. repeat split; try done.
   - intros k. rewrite <- He2, Hde. eapply disp_M1_e; eauto.
   - intros k. rewrite <- Hd2, Hdd. eapply disp_M1_d; eauto.
-  - rewrite Hrt. unfold M1. cbn. unfold moved. cbn. destruct (m_data _ !! _); cbn; unfold M0; destruct (m_ents m !! (b :: ddir)); cbn; apply (wf_rootpath m HW).
+  - rewrite Hcw. unfold M1. cbn. unfold moved. cbn. destruct (m_data _ !! _); cbn; unfold M0; destruct (m_ents m !! (db :: dd)); reflexivity.
+  - rewrite Hrt. unfold M1. cbn. unfold moved. cbn. destruct (m_data _ !! _); cbn; unfold M0; destruct (m_ents m !! (db :: dd)); reflexivity.
+Qed.
+
+(* ---- C03 for move_p: for every state, source and destination ---- *)
+Theorem move_op_wf env m s d m' r : WF m → move_op env m s d = Done (m', r) → WF m'.
+Proof.
+  intros HW Hm. destruct (move_validate env m s d) as [e| |sp dt0] eqn:Ev.
+  - unfold move_op in Hm. rewrite Ev in Hm. by simplify_eq.
+  - unfold move_op in Hm. rewrite Ev in Hm. by simplify_eq.
+  - destruct (move_go_facts env m s d _ _ Ev) as (_ & _ & Hu & b & ddir & x0 & -> & _).
+    destruct sp as [|sb sd].
+    { exfalso. assert (is_under (b :: ddir) [] = true) as Ht by (apply is_under_spec, suffix_nil). congruence. }
+    destruct (move_op_spec env m s d sb sd b ddir m' r HW Ev Hm) as (se & op & x & Hse & Hop & Hx & Hxr & _ & He & Hd & _ & Hrt & H1 & H2 & Hfree).
+    eapply (target_wf m sb b sd ddir se op x); eauto. rewrite Hrt. apply (wf_rootpath m HW).
 Qed.
 
 (* ---- every call, every history ---- *)
@@ -789,3 +807,50 @@ Example wf_all_histories_nonvacuous :
            OMkdirP [47; 99]%N; OMoveP [47; 97]%N [47; 99]%N; OMoveP [47; 99; 47; 97; 47; 98]%N [47; 100]%N] = Some m'
         ∧ size (m_ents m') = 6.
 Proof. eexists. split; [vm_compute; reflexivity | vm_compute; reflexivity]. Qed.
+
+(* ---- C09: readable consequences of the exact description ---- *)
+Section MoveLaws.
+Variables (env : envmap) (m m' : mfs) (s d : list N) (sb db : list N) (sd dd : rpath) (r : mres unit).
+Hypothesis HW : WF m.
+Hypothesis Ev : move_validate env m s d = MvGo (sb :: sd) (db :: dd).
+Hypothesis Hm : move_op env m s d = Done (m', r).
+Notation sr := (sb :: sd).
+Notation dt := (db :: dd).
+
+(* the source disappears, with everything below it *)
+Theorem move_source_gone k : sr `suffix_of` k → m_ents m' !! k = None ∧ m_data m' !! k = None.
+Proof.
+  intros Hk. destruct (move_op_spec env m s d sb sd db dd m' r HW Ev Hm) as (se & op & x & _ & _ & _ & _ & _ & He & Hd & _ & _ & H1 & H2 & _).
+  rewrite He, Hd. unfold Fe, Fd.
+  assert (¬ dt `suffix_of` k) by (intros Hs; by apply (suffix_disjoint sr dt k)).
+  rewrite !(decide_False (P := k = dt)) by (intros ->; done).
+  rewrite !(decide_False (P := dt `suffix_of` k)) by done. by rewrite !decide_True.
+Qed.
+
+(* the destination is the former source subtree: same relative paths, same kind, files set, mode, owner, content *)
+Theorem move_destination j : 
+  m_ents m' !! (j ++ dt) = (λ e, move_entry e (j ++ dt)) <$> (m_ents m !! (j ++ sr)) ∧
+  m_data m' !! (j ++ dt) = m_data m !! (j ++ sr).
+Proof.
+  destruct (move_op_spec env m s d sb sd db dd m' r HW Ev Hm) as (se & op & x & Hse & _ & _ & _ & _ & He & Hd & _ & _ & H1 & H2 & _).
+  rewrite He, Hd. unfold Fe, Fd. destruct j as [|n j].
+  - cbn [app]. rewrite !decide_True by done. by rewrite Hse.
+  - rewrite !(decide_False (P := (n :: j) ++ dt = dt)) by (intros E; apply (f_equal length) in E; rewrite app_length in E; cbn in E; lia).
+    rewrite !decide_True by (by exists (n :: j)). unfold unrb. by rewrite rebase_app.
+Qed.
+
+(* nothing else changes, apart from the two parents' name lists *)
+Theorem move_frame k : ¬ sr `suffix_of` k → ¬ dt `suffix_of` k →
+  m_data m' !! k = m_data m !! k ∧ (k ≠ sd → k ≠ dd → m_ents m' !! k = m_ents m !! k).
+Proof.
+  intros H1 H2. destruct (move_op_spec env m s d sb sd db dd m' r HW Ev Hm) as (se & op & x & _ & _ & _ & _ & _ & He & Hd & _).
+  rewrite He, Hd. unfold Fe, Fd.
+  rewrite !(decide_False (P := k = dt)) by (intros ->; by apply H2).
+  rewrite !(decide_False (P := dt `suffix_of` k)) by done. rewrite !(decide_False (P := sr `suffix_of` k)) by done.
+  split; [done|]. intros H3 H4. by rewrite !decide_False.
+Qed.
+
+Theorem move_cwd_root : m_cwd m' = m_cwd m ∧ m_root m' = m_root m ∧ r = inl tt.
+Proof. destruct (move_op_spec env m s d sb sd db dd m' r HW Ev Hm) as (se & op & x & _ & _ & _ & _ & Hr & _ & _ & Hc & Hrt & _). done. Qed.
+
+End MoveLaws.
